@@ -208,59 +208,71 @@ theorem dinv_complete (hwf : g.WF) (hcf : cf.WF g) {s : DSt} (h : DInv g cf F ag
           injection hl' with hl'
           rw [← hl', hdl]
           simp only
-          rw [hcount, if_pos rfl, h.owed a st hl y hy, count_releasedBy, deliveriesOf_cons]
+          rw [hcount, if_pos rfl, h.owed a st hl y hy, count_releasedBy]
+          have hdm : ∀ r, (dsts (m :: st.log)).contains r = (m.dst == r || (dsts st.log).contains r) := by
+            intro r
+            show (m.dst :: dsts st.log).contains r = _
+            rw [List.contains_cons]
+            cases hh : (r == m.dst) <;> cases hh2 : (m.dst == r) <;> simp_all
           by_cases hpy : cf.place y = m.dst
-          · -- everything towards `y` was still owed; the payloads of `m` are now delivered
-            have e1 : g.E.countP (fun e => e.1 == a && e.2.1 == y && !(deliveriesOf st.log).contains (cf.place y, e.2.2)) =
+          · -- everything towards `y` was still owed; what `m` carries or names is now released
+            have hf1 : (dsts st.log).contains m.dst = false := by
+              cases hc : (dsts st.log).contains m.dst with
+              | false => rfl
+              | true => exact absurd (by simpa using hc) hnd
+            have hf2 : ∀ k, (deliveriesOf st.log).contains (m.dst, k) = false := by
+              intro k
+              cases hc : (deliveriesOf st.log).contains (m.dst, k) with
+              | false => rfl
+              | true => exact absurd (by simpa using hc) (not_mem_deliveries st.log m.dst k hnd)
+            have e1 : g.E.countP (fun e => e.1 == a && e.2.1 == y && !got g a st.log (cf.place y) e.2.2) =
                 g.E.countP (fun e => e.1 == a && e.2.1 == y) := by
               apply List.countP_congr
               intro e _
-              have : (deliveriesOf st.log).contains (cf.place y, e.2.2) = false := by
-                rw [hpy]
-                cases hc : (deliveriesOf st.log).contains (m.dst, e.2.2) with
-                | false => rfl
-                | true => exact absurd (by simpa using hc) (not_mem_deliveries st.log m.dst e.2.2 hnd)
+              have : got g a st.log (cf.place y) e.2.2 = false := by
+                unfold got; rw [hpy]; split
+                · exact hf1
+                · exact hf2 _
               rw [this]; simp
-            have e2 : g.E.countP (fun e => (e.1 == a && cf.place e.2.1 == m.dst && m.keys.contains e.2.2) && e.2.1 == y) =
-                g.E.countP (fun e => (e.1 == a && e.2.1 == y) && m.keys.contains e.2.2) := by
+            have e2 : g.E.countP (fun e => (e.1 == a && cf.place e.2.1 == m.dst && (m.keys.contains e.2.2 || g.isCtl a e.2.2)) && e.2.1 == y) =
+                g.E.countP (fun e => (e.1 == a && e.2.1 == y) && (m.keys.contains e.2.2 || g.isCtl a e.2.2)) := by
               apply List.countP_congr
               intro e _
               simp only [Bool.and_eq_true, beq_iff_eq]
               constructor
               · rintro ⟨⟨⟨h1, _⟩, h3⟩, h4⟩; exact ⟨⟨h1, h4⟩, h3⟩
               · rintro ⟨⟨h1, h4⟩, h3⟩; exact ⟨⟨⟨h1, by rw [h4]; exact hpy⟩, h3⟩, h4⟩
-            have e3 : g.E.countP (fun e => e.1 == a && e.2.1 == y &&
-                  !((m.keys.map fun k => (m.dst, k)) ++ deliveriesOf st.log).contains (cf.place y, e.2.2)) =
-                g.E.countP (fun e => (e.1 == a && e.2.1 == y) && !m.keys.contains e.2.2) := by
+            have e3 : g.E.countP (fun e => e.1 == a && e.2.1 == y && !got g a (m :: st.log) (cf.place y) e.2.2) =
+                g.E.countP (fun e => (e.1 == a && e.2.1 == y) && !(m.keys.contains e.2.2 || g.isCtl a e.2.2)) := by
               apply List.countP_congr
               intro e _
-              have : ((m.keys.map fun k => (m.dst, k)) ++ deliveriesOf st.log).contains (cf.place y, e.2.2) =
-                  m.keys.contains e.2.2 := by
-                rw [hpy, List.contains_append]
-                have hf : (deliveriesOf st.log).contains (m.dst, e.2.2) = false := by
-                  cases hc : (deliveriesOf st.log).contains (m.dst, e.2.2) with
-                  | false => rfl
-                  | true => exact absurd (by simpa using hc) (not_mem_deliveries st.log m.dst e.2.2 hnd)
-                rw [hf, Bool.or_false]
-                cases hc : m.keys.contains e.2.2 with
-                | true =>
-                  have : e.2.2 ∈ m.keys := by simpa using hc
-                  simp only [List.contains_iff_mem, List.mem_map, Prod.mk.injEq, true_and, exists_eq_right]
-                  exact this
+              have : got g a (m :: st.log) (cf.place y) e.2.2 = (m.keys.contains e.2.2 || g.isCtl a e.2.2) := by
+                unfold got
+                rw [hpy]
+                cases hct : g.isCtl a e.2.2 with
+                | true => simp [hdm]
                 | false =>
-                  have hn : e.2.2 ∉ m.keys := by intro hh; simp [hh] at hc
-                  cases hc2 : (m.keys.map fun k => (m.dst, k)).contains (m.dst, e.2.2) with
-                  | false => rfl
+                  simp only [Bool.false_eq_true, if_false, Bool.or_false]
+                  rw [deliveriesOf_cons, List.contains_append, hf2, Bool.or_false]
+                  cases hc : m.keys.contains e.2.2 with
                   | true =>
-                    exfalso; apply hn
-                    have : (m.dst, e.2.2) ∈ m.keys.map fun k => (m.dst, k) := by simpa using hc2
-                    obtain ⟨k, hk, hkk⟩ := List.mem_map.1 this
-                    injection hkk with _ h2; exact h2 ▸ hk
+                    have : e.2.2 ∈ m.keys := by simpa using hc
+                    simp only [List.contains_iff_mem, List.mem_map, Prod.mk.injEq, true_and, exists_eq_right]
+                    exact this
+                  | false =>
+                    have hn : e.2.2 ∉ m.keys := by intro hh; simp [hh] at hc
+                    cases hc2 : (m.keys.map fun k => (m.dst, k)).contains (m.dst, e.2.2) with
+                    | false => rfl
+                    | true =>
+                      exfalso; apply hn
+                      have : (m.dst, e.2.2) ∈ m.keys.map fun k => (m.dst, k) := by simpa using hc2
+                      obtain ⟨k, hk, hkk⟩ := List.mem_map.1 this
+                      injection hkk with _ h2; exact h2 ▸ hk
               rw [this]
-            rw [e1, e2, e3, countP_split g.E (fun e => e.1 == a && e.2.1 == y) (fun e => m.keys.contains e.2.2)]
+            rw [e1, e2, e3, countP_split g.E (fun e => e.1 == a && e.2.1 == y) (fun e => m.keys.contains e.2.2 || g.isCtl a e.2.2)]
             omega
           · -- nothing towards `y` is released and nothing towards `y`'s rank is delivered
-            have e2 : g.E.countP (fun e => (e.1 == a && cf.place e.2.1 == m.dst && m.keys.contains e.2.2) && e.2.1 == y) = 0 := by
+            have e2 : g.E.countP (fun e => (e.1 == a && cf.place e.2.1 == m.dst && (m.keys.contains e.2.2 || g.isCtl a e.2.2)) && e.2.1 == y) = 0 := by
               rw [List.countP_eq_zero]
               intro e _ hc
               simp only [Bool.and_eq_true, beq_iff_eq] at hc
@@ -268,18 +280,22 @@ theorem dinv_complete (hwf : g.WF) (hcf : cf.WF g) {s : DSt} (h : DInv g cf F ag
             rw [e2, Nat.sub_zero]
             apply List.countP_congr
             intro e _
-            have : ((m.keys.map fun k => (m.dst, k)) ++ deliveriesOf st.log).contains (cf.place y, e.2.2) =
-                (deliveriesOf st.log).contains (cf.place y, e.2.2) := by
-              rw [List.contains_append]
-              have : (m.keys.map fun k => (m.dst, k)).contains (cf.place y, e.2.2) = false := by
-                cases hc : (m.keys.map fun k => (m.dst, k)).contains (cf.place y, e.2.2) with
-                | false => rfl
-                | true =>
-                  exfalso
-                  have : (cf.place y, e.2.2) ∈ m.keys.map fun k => (m.dst, k) := by simpa using hc
-                  obtain ⟨k, _, hkk⟩ := List.mem_map.1 this
-                  injection hkk with h1 _; exact hpy h1.symm
-              rw [this, Bool.false_or]
+            have : got g a (m :: st.log) (cf.place y) e.2.2 = got g a st.log (cf.place y) e.2.2 := by
+              unfold got
+              split
+              · rw [hdm]
+                have : (m.dst == cf.place y) = false := by simpa using fun e => hpy e.symm
+                rw [this, Bool.false_or]
+              · rw [deliveriesOf_cons, List.contains_append]
+                have : (m.keys.map fun k => (m.dst, k)).contains (cf.place y, e.2.2) = false := by
+                  cases hc : (m.keys.map fun k => (m.dst, k)).contains (cf.place y, e.2.2) with
+                  | false => rfl
+                  | true =>
+                    exfalso
+                    have : (cf.place y, e.2.2) ∈ m.keys.map fun k => (m.dst, k) := by simpa using hc
+                    obtain ⟨k, _, hkk⟩ := List.mem_map.1 this
+                    injection hkk with h1 _; exact hpy h1.symm
+                rw [this, Bool.false_or]
             rw [this]
         · rename_i hk
           have hxa : x ≠ a := fun e => hk (by simp [e])
